@@ -352,6 +352,120 @@ def _(A, Bm):
     _st_le1(A, A.v)
 
 
+# ---- second calls of stateful declarations: a legal first call, then one with an object of model B
+# (B.zs has random index 2, which the legal first call on A.z / A.z[0] leaves free, so only an ownership check
+#  can reject the second call)
+@entry('2nd:ldrA.adapt(zA);ldrA.adapt(zsB)', a='ro')
+def _(A, Bm):
+    A.ldr.adapt(A.z)
+    A.ldr.adapt(Bm.zs)
+    _st_le1(A, A.ldr)
+@entry('2nd:ldrA[0].adapt(zA[0]);ldrA[0].adapt(zsB)', a='ro')
+def _(A, Bm):
+    A.ldr[0].adapt(A.z[0])
+    A.ldr[0].adapt(Bm.zs)
+    _st_le1(A, A.ldr)
+@entry('2nd:ldrA[0].adapt(zA[0]);ldrA[1].adapt(zB[1])', a='ro')
+def _(A, Bm):
+    A.ldr[0].adapt(A.z[0])
+    A.ldr[1].adapt(Bm.z[1])
+    _st_le1(A, A.ldr)
+@entry('2nd:ldrA.adapt(zA[0]);ldrA.adapt(zB[1])', a='ro')
+def _(A, Bm):
+    A.ldr.adapt(A.z[0])
+    A.ldr.adapt(Bm.z[1])
+    _st_le1(A, A.ldr)
+@entry('2nd:vA.adapt(zA);vA.adapt(zsB)', a='dro')
+def _(A, Bm):
+    A.v.adapt(A.z)
+    A.v.adapt(Bm.zs)
+    _st_le1(A, A.v)
+@entry('2nd:vA[0].adapt(zA[0]);vA[0].adapt(zsB)', a='dro')
+def _(A, Bm):
+    A.v[0].adapt(A.z[0])
+    A.v[0].adapt(Bm.zs)
+    _st_le1(A, A.v)
+@entry('2nd:vA[0].adapt(zA[0]);vA[1].adapt(zB[1])', a='dro')
+def _(A, Bm):
+    A.v[0].adapt(A.z[0])
+    A.v[1].adapt(Bm.z[1])
+    _st_le1(A, A.v)
+@entry('2nd:vA.adapt(zA[0]);vA.adapt(zB[1])', a='dro')
+def _(A, Bm):
+    A.v.adapt(A.z[0])
+    A.v.adapt(Bm.z[1])
+    _st_le1(A, A.v)
+@entry('2nd:vA.adapt(zA);yA.adapt(zsB)', a='dro')
+def _(A, Bm):
+    A.v.adapt(A.z)
+    A.y.adapt(Bm.zs)
+    _st_le1(A, A.y + A.v.sum())
+@entry('2nd:xA.adapt(sA[0]);vA.adapt(sB[1])', a='dro', b='dro')
+def _(A, Bm):
+    A.x.adapt(A.fset[0])
+    A.v.adapt(Bm.fset[1])
+    _st_le1(A, A.v)
+@entry('2nd:vA.adapt(sA[0]);vA.adapt(sB[1])', a='dro', b='dro')
+def _(A, Bm):
+    A.v.adapt(A.fset[0])
+    A.v.adapt(Bm.fset[1])
+    _st_le1(A, A.v)
+@entry('1st:vA.adapt(sB[0])', a='dro', b='dro')
+def _(A, Bm):
+    A.v.adapt(Bm.fset[0])
+    _st_le1(A, A.v)
+@entry('2nd:s[0].suppset(own);s[1].suppset(zB)', a='dro')
+def _(A, Bm):
+    A.fset[0].suppset(A.z >= -1, A.z <= 1, A.zs >= -1, A.zs <= 1)
+    A.fset[1].suppset(Bm.z >= -1, Bm.z <= 1, Bm.zs >= -1, Bm.zs <= 1)
+@entry('2nd:exptset(own);exptset(E(zB))', a='dro', b='dro')
+def _(A, Bm):
+    A.fset.exptset(_E()(A.z) <= 0.5, _E()(A.z) >= -0.5)
+    A.fset.exptset(_E()(Bm.z) <= 0.25, _E()(Bm.z) >= -0.25)
+@entry('2nd:exptset(own);s[0].exptset(E(zsB))', a='dro', b='dro')
+def _(A, Bm):
+    A.fset.exptset(_E()(A.z) <= 0.5, _E()(A.z) >= -0.5)
+    A.fset[0].exptset(_E()(Bm.zs) == 0)
+@entry('2nd:probset(own);probset(pB)', a='dro', b='dro')
+def _(A, Bm):
+    A.fset.probset(A.p <= 0.75)
+    A.fset.probset(Bm.p <= 0.75)
+@entry('2nd:probset(own);probset(norm(pB-.5))', a='dro', b='dro')
+def _(A, Bm):
+    A.fset.probset(_rs().norm(A.p - 0.5) <= 0.2)
+    A.fset.probset(_rs().norm(Bm.p - 0.5) <= 0.2)
+@entry('2nd:c.forall(zsetA);c.forall(zsetB)')
+def _(A, Bm):
+    c = (A.x @ A.z <= 1)
+    c.forall(A.zset())
+    c.forall(Bm.zset())
+    A.m.st(c)
+@entry('2nd:c.forall(fsetA);c.forall(fsetB)', a='dro', b='dro')
+def _(A, Bm):
+    c = (A.x @ A.z <= 1)
+    c.forall(A.fset)
+    c.forall(Bm.fset)
+    A.m.st(c)
+@entry('2nd:Ec.forall(fsetA);Ec.forall(fsetB)', a='dro', b='dro')
+def _(A, Bm):
+    c = (_E()(A.x @ A.z) <= 1)
+    c.forall(A.fset)
+    c.forall(Bm.fset)
+    A.m.st(c)
+@entry('2nd:pw.forall(zsetA).forall(zsetB)')
+def _(A, Bm):
+    c = (_rs().maxof(A.x[0] * A.zs, A.x[1]) <= 1)
+    A.m.st(c.forall(A.zset()).forall(Bm.zset()))
+@entry('2nd:c1.forall(zsetA);c2.forall(zsetB)')
+def _(A, Bm):
+    A.m.st((A.x @ A.z <= 1).forall(A.zset()))
+    A.m.st((A.x @ A.z <= 2).forall(Bm.zset()))
+@entry('2nd:st(own);st(linB)')
+def _(A, Bm):
+    A.m.st(A.x[0] + A.x[1] <= 1)
+    A.m.st(Bm.x[0] + Bm.x[1] <= 1)
+
+
 # ---- stacking
 @entry('stack:concat(xA,xB)')
 def _(A, Bm): _st_le1(A, _rs().concat([A.x, Bm.x]))
